@@ -209,6 +209,8 @@ theorem step_jinv {t : Topo} (wf : t.WF) {s s' : State} {l : Label} (hj : JInv t
     · split at h
       · cases h
       split at h
+      · cases h; exact hj.sysErr wf hi hloop
+      split at h
       · cases h; exact (hj.closeShut wf hi hloop).congr rfl
       split at h
       · cases h; exact hj.shut wf hi hloop
@@ -248,6 +250,8 @@ theorem step_jinv {t : Topo} (wf : t.WF) {s s' : State} {l : Label} (hj : JInv t
     · rename_i hin
       split at h
       · cases h
+      split at h
+      · cases h; exact hj.sysErr wf hi hloop
       · cases h
         -- EOF on upstream: nothing can be pending for `n`; it closes upstream and stops
         have hj0 : JInv t { s with upOpen := upd s.upOpen n false } := by
